@@ -5,7 +5,10 @@ P="$(realpath "$1")"; ID="$2"; TIER="${3:-quick}"; shift; shift; shift || true
 W=$(mktemp -d /tmp/mut-XXXXXX); rmdir "$W"
 git -C /repo worktree add -q --detach "$W" HEAD || exit 2
 # carry uncommitted edits of /repo (none expected) - worktree is HEAD
-if ! git -C "$W" apply "$P"; then echo "patch does not apply"; git -C /repo worktree remove --force "$W"; exit 2; fi
+if ! git -C "$W" apply "$P" 2>/dev/null; then
+  # older patches: the tree has moved on around them, try with fuzz
+  if ! (cd "$W" && patch -p1 -s -F3 < "$P" >/dev/null 2>&1); then echo "patch does not apply"; git -C /repo worktree remove --force "$W"; exit 2; fi
+fi
 VERIF_REPO="$W" /verif/check.sh "$ID" "$TIER" "$@"; rc=$?
 git -C /repo worktree remove --force "$W"
 rm -rf "/tmp/verif-replays-$(basename "$W")" "/tmp/verif-evidence-$(basename "$W")"
